@@ -294,6 +294,42 @@ theorem c14_subset_livetime (ivs : List (K × K)) (t0 t1 : K) (h01 : t0 ≤ t1)
 
 end field
 
+section history
+variable {K : Type} [LE K] [DecidableLE K] [Add K] [Sub K] [Mul K] [OfNat K 0]
+
+/-- **history independence of the object**: after any history of queries and assignments of new
+up-time intervals (public setter), the object holds the last assigned interval list … -/
+theorem c14_history_holds_last_set (held : List (K × K)) (ops : List (Op K)) :
+    (objRun held ops).1 = lastSet held ops := by
+  induction ops generalizing held with
+  | nil => rfl
+  | cons op ops ih =>
+    cases op <;> simp [objRun, objStep, lastSet, ih]
+
+/-- … and therefore a query after the history is answered exactly as a freshly constructed
+object holding those intervals answers it (all the theorems above then apply to it). -/
+theorem c14_history_query_fresh (held : List (K × K)) (ops : List (Op K)) (q : Op K)
+    (hq : ∀ ivs, q ≠ .setIvs ivs) :
+    (objRun held (ops ++ [q])).2.getLast? = some (answer (lastSet held ops) q) := by
+  induction ops generalizing held with
+  | nil =>
+    cases q with
+    | setIvs ivs => exact absurd rfl (hq ivs)
+    | _ => simp [objRun, objStep, lastSet]
+  | cons op ops ih =>
+    have h := ih (objStep held op).1
+    have hl : lastSet held (op :: ops) = lastSet (objStep held op).1 ops := by
+      cases op <;> simp [lastSet, objStep]
+    rw [hl, ← h]
+    simp only [List.cons_append, objRun]
+    have hne : (objRun (objStep held op).1 (ops ++ [q])).2 ≠ [] := by
+      cases ops with
+      | nil => simp [objRun]
+      | cons o os => simp [objRun]
+    rw [List.getLast?_cons_of_ne_nil hne]
+
+end history
+
 -- non-vacuity: a concrete sorted interval set with a touching pair and a zero-length interval
 example : C14.Sorted ([(0, 2), (2, 4), (6, 6), (8, 12)] : List (ℤ × ℤ)) := by
   unfold C14.Sorted flat; decide
